@@ -117,7 +117,7 @@ TEXT = {
  },
  'C11': {
   'text': 'Lean 4 theorems on the model of the key tree + flat index exactly as coded. For EVERY history in which no registration '
-          'conflicts with an earlier one (top-level and nested registrations under any registered parent, refused registrations, change '
+          'conflicts with an earlier one (top-level and nested registrations under any registered parent, exact re-registrations, refused registrations, change '
           'journals; conflict-freedom is an explicit predicate with a sound executable test) a global invariant holds '
           '(c11_conflict_free_agree): every flat-index entry denotes a node carrying that (slot, offset, type) and reachable by a name '
           'path from its account\'s root, every node reachable by a name path is its account\'s index entry for its own coordinates, '
@@ -128,8 +128,8 @@ TEXT = {
           'witnesses for each conflict class): known finding D14. Every run replays random histories over a small alphabet through the '
           'exported API, compares every accessor with the model, and probes each accepted registration (S both-see): non-conflicting ones '
           'must be seen by both lookups.',
-  'note': 'Partial because the property is false as stated (D14): agreement is proved for all conflict-free histories; idempotent exact '
-          're-registration is covered by the one-step theorems and the correspondence, not by the global invariant; the conflict classes '
+  'note': 'Partial because the property is false as stated (D14): agreement is proved for all conflict-free histories; an exact re-registration is proved '
+          'idempotent (c11_reregistration_idempotent: no lookup changes its answer); the conflict classes '
           '(same name/other key, shared slot+offset/other type, same key/other path, child of a conflicted parent) are reported as '
           'KNOWN-FINDING D14, any other disagreement is a violation.',
   'technique': 'Lean 4 global invariant over all conflict-free histories + proved negation witnesses + op-sequence correspondence with per-registration probes',
